@@ -477,6 +477,44 @@ func checkCreationRegisters(c *Ctx) {
 					okS = true
 				}
 			}
+			// the insertion extracted into a helper whose every success return follows the store
+			for _, cl := range Calls(fn) {
+				h := cl.Fn
+				if h != nil {
+					h = bodyOf(h)
+				}
+				if h == nil || len(h.Blocks) == 0 || fnPkgPath(h) != fnPkgPath(fn) || cl.Value() == nil || !dominatedBySuccess(cl.Value(), r) {
+					continue
+				}
+				var hs []*ssa.BasicBlock
+				for _, b := range h.Blocks {
+					for _, ins := range b.Instrs {
+						if mu, isMU := ins.(*ssa.MapUpdate); isMU {
+							if _, fld, isF := loadOfField(mu.Map); isF && fld == "cached" {
+								hs = append(hs, b)
+							}
+						}
+					}
+				}
+				all := len(hs) > 0
+				for _, hr := range Returns(h) {
+					if returnKind(hr) == RetError {
+						continue
+					}
+					d := false
+					for _, sb := range hs {
+						if sb.Dominates(hr.Block()) {
+							d = true
+						}
+					}
+					if !d {
+						all = false
+					}
+				}
+				if all {
+					okS = true
+				}
+			}
 			if !okU {
 				ok, why = false, "success is returned without a successful entityUpdated (excerpt/index/cache file not written)"
 			} else if !okS {
